@@ -70,7 +70,7 @@ SeqSet(s) == {s[i] : i \in DOMAIN s}
 \*       incn     - <<ep,sid>> -> incarnation counter (open/accept events)
 MiscInit == [probe |-> [e \in EP |-> -1], thr |-> <<>>, cbs |-> <<>>, ackDue |-> [e \in EP |-> -1],
              incn |-> <<>>, fwdMax |-> [e \in EP |-> -1],
-             nack |-> [line |-> 0, to |-> -1, set |-> {}, hb |-> FALSE], teardown |-> FALSE, txn |-> [e \in EP |-> 0]]
+             nack |-> [line |-> 0, to |-> -1, set |-> {}, hb |-> FALSE], teardown |-> FALSE, shutAt |-> <<>>, shutRet |-> <<>>, txn |-> [e \in EP |-> 0]]
 
 InitVars ==
   /\ scen = "" /\ cfg = [none |-> TRUE]
@@ -124,7 +124,7 @@ WriteViol(e) ==
 \* withdrawn by the "write" event logged at the call's return (its linearization point for errors).
 TrWCall ==
   /\ IsEv("wcall")
-  /\ msg' = (E.id :> (E @@ [inc |-> Get(misc.incn, <<E.ep, E.sid>>, 0)])) @@ msg
+  /\ msg' = (E.id :> (E @@ [inc |-> Get(misc.incn, <<E.ep, E.sid>>, 0), callLine |-> l])) @@ msg
   /\ LET k == <<E.ep, E.sid>> IN
        order' = IF E.len > 0 THEN (k :> Append(Get(order, k, <<>>), E.id)) @@ order ELSE order
   /\ step' = E
@@ -133,12 +133,14 @@ TrWCall ==
 
 TrWrite ==
   /\ IsEv("write")
-  /\ msg' = (E.id :> (E @@ [inc |-> Get(misc.incn, <<E.ep, E.sid>>, 0)])) @@ msg
+  /\ msg' = (E.id :> (E @@ [inc |-> msg[E.id].inc, callLine |-> msg[E.id].callLine])) @@ msg
   /\ LET k == <<E.ep, E.sid>> IN
        order' = IF ~E.ok /\ E.len > 0
                 THEN (k :> SelectSeq(Get(order, k, <<>>), LAMBDA x : x # E.id)) @@ order
                 ELSE order
   /\ viol' = viol \cup WriteViol(E)
+              \cup (IF E.ok /\ E.ep \in DOMAIN misc.shutAt /\ msg[E.id].callLine > misc.shutAt[E.ep]
+                    THEN {V("C08_WriteAfterShutdownRejected", <<E.ep, E.sid, E.id>>)} ELSE {})
               \cup (IF ~E.ok /\ \E t \in DOMAIN ch[E.ep] : ch[E.ep][t].id = E.id
                     THEN {V("C18_FailedWriteOnWire", <<E.ep, E.sid, E.id, E.err>>)} ELSE {})
   /\ step' = E
@@ -173,6 +175,8 @@ ReadViol(e) ==
     \cup (IF e.id # 0 /\ e.id \in prevIds THEN {V("C06_AtMostOnce", <<e.ep, e.sid, e.id>>)} ELSE {})
     \cup (IF known /\ pos # 0 /\ (m.len # e.len \/ m.ppi # e.ppi) THEN {V("C06_Intact", <<e.ep, e.sid, e.id, e.len, e.ppi>>)} ELSE {})
     \cup (IF known /\ pos # 0 /\ ~m.unord /\ laterDelivered # {} THEN {V("C06_OrderedSubseq", <<e.ep, e.sid, e.id>>)} ELSE {})
+    \cup (IF \E i \in DOMAIN prev : ~prev[i].ok /\ prev[i].err \notin {"short", "deadline"}
+          THEN {V("C08_DataAfterClosure", <<e.ep, e.sid, e.id>>)} ELSE {})
     \cup (IF known /\ pos # 0 /\ ~m.unord /\ earlierReliableMissing # {}
           THEN {V("C01_SkippedReliable", <<e.ep, e.sid, e.id, sent[Min(earlierReliableMissing)]>>)} ELSE {})
 
@@ -357,9 +361,19 @@ TrChunkFwd ==
   /\ l' = l + 1
   /\ UNCHANGED <<scen, cfg, msg, order, reads, ch, hi, rcvd, skipTo, ackCum, ackGap, arw, outst, lastSack, sackEv, sn, step, newData, rs, acc>>
 
+\* --- SHUTDOWN written by endpoint e: its cumulative TSN ack acknowledges data like a SACK does (C08)
+TrChunkShutdown ==
+  /\ IsEv("c") /\ E.k = "shutdown" /\ ~pkt[E.pid].forged /\ "bad" \notin DOMAIN E
+  /\ pkt' = [pkt EXCEPT ![E.pid].chunks = Append(@, E)]
+  /\ LET e == E.ep
+         unsound == {t \in 0..E.cum : t \notin rcvd[e] /\ t > skipTo[e]}
+     IN viol' = viol \cup (IF unsound # {} THEN {V("C08_ShutdownAckSound", <<e, E.cum, Min(unsound)>>)} ELSE {})
+  /\ l' = l + 1
+  /\ UNCHANGED <<scen, cfg, msg, order, reads, ch, hi, rcvd, skipTo, ackCum, ackGap, arw, outst, lastSack, sackEv, sn, step, newData, misc, rs, acc>>
+
 \* --- any other chunk (handshake, reconfig, shutdown, abort, heartbeat ...): stored with the packet
 TrChunkOther ==
-  /\ IsEv("c") /\ (pkt[E.pid].forged \/ E.k \notin (DataKinds \cup {"sack", "fwd", "ifwd"}))
+  /\ IsEv("c") /\ (pkt[E.pid].forged \/ "bad" \in DOMAIN E \/ E.k \notin (DataKinds \cup {"sack", "fwd", "ifwd", "shutdown"}))
   /\ pkt' = [pkt EXCEPT ![E.pid].chunks = Append(@, E)]
   /\ l' = l + 1
   /\ UNCHANGED <<scen, cfg, msg, order, reads, ch, hi, rcvd, skipTo, ackCum, ackGap, arw, outst, lastSack, sackEv, sn, step, newData, misc, rs, acc, viol>>
@@ -610,6 +624,13 @@ TrEnd ==
 \* connect call returned: success only for an established association (checked at the next snapshot
 \* through C04_Agreement / here against the projection when one exists)
 ApiViol(x) ==
+  (IF x.op = "shutdown-ret" /\ x.ok
+   THEN LET e == x.ep
+            unacked == {t \in DOMAIN ch[e] : ~(t <= ackCum[e] \/ t \in ackGap[e])}
+            unsent == {id \in DOMAIN msg : msg[id].ep = e /\ msg[id].ok /\ msg[id].len > 0 /\ ~\E t \in DOMAIN ch[e] : ch[e][t].id = id}
+        IN (IF unacked # {} THEN {V("C08_ReturnedBeforeAcked", <<e, Min(unacked)>>)} ELSE {})
+           \cup (IF unsent # {} THEN {V("C08_ReturnedBeforeSent", <<e, CHOOSE id \in unsent : TRUE>>)} ELSE {})
+   ELSE {}) \cup
   IF x.op = "connect-ret" /\ x.ok /\ sn[x.ep] # NoSnap /\ sn[x.ep].st \notin {"established", "cookieEchoed", "cookieWait", "closed"}
   THEN {V("C04_ConnectOk", <<x.ep, sn[x.ep].st>>)} ELSE {}
 
@@ -617,7 +638,9 @@ TrApi ==
   /\ IsEv("api")
   /\ misc' = CASE E.op = "threshold" -> [misc EXCEPT !.thr = Upd(@, <<E.ep, E.sid>>, E.val), !.cbs = Upd(@, <<E.ep, E.sid>>, 0)]
                [] E.op \in {"open", "accept"} /\ E.ok -> [misc EXCEPT !.incn = Upd(@, <<E.ep, E.sid>>, Get(@, <<E.ep, E.sid>>, 0) + 1)]
-               [] E.op \in {"shutdown-call", "close-call", "abort-call", "connfail"} -> [misc EXCEPT !.teardown = TRUE]
+               [] E.op \in {"shutdown-call", "close-call", "abort-call", "connfail"} ->
+                    [misc EXCEPT !.teardown = TRUE, !.shutAt = IF E.op = "shutdown-call" THEN Upd(@, E.ep, l) ELSE @]
+               [] E.op = "shutdown-ret" -> [misc EXCEPT !.shutRet = Upd(@, E.ep, E.ok)]
                [] OTHER -> misc
   /\ viol' = viol \cup AckLate(E.t) \cup ApiViol(E)
   /\ step' = E
@@ -697,6 +720,23 @@ TrDiff ==
   /\ l' = l + 1
   /\ UNCHANGED <<scen, cfg, msg, order, reads, ch, hi, pkt, rcvd, skipTo, ackCum, ackGap, arw, outst, lastSack, sackEv, sn, step, newData, misc, rs, acc>>
 
+\* end of a shutdown scenario: both endpoints closed, the calls returned, everything that was accepted
+\* before the call was read by the peer
+TrShutEnd ==
+  /\ IsEv("shutend")
+  /\ LET callers == DOMAIN misc.shutAt
+         undel == {id \in DOMAIN msg : msg[id].ok /\ msg[id].len > 0 /\ id \notin DeliveredIds
+                                        /\ (msg[id].rtype = 0 \/ msg[id].ppi = 50)}
+         \* messages of an endpoint whose Shutdown returned nil and that were written before the call
+         owed == {id \in undel : msg[id].ep \in DOMAIN misc.shutRet /\ misc.shutRet[msg[id].ep]
+                                  /\ msg[id].callLine < misc.shutAt[msg[id].ep]}
+     IN viol' = viol
+          \cup {V("C08_BothClosed", <<e, sn[e].st>>) : e \in {q \in EP : sn[q] # NoSnap /\ sn[q].st # "closed"}}
+          \cup {V("C08_ShutdownReturns", <<e>>) : e \in {q \in callers : q \notin DOMAIN misc.shutRet}}
+          \cup {V("C08_DeliveredBeforeReturn", <<msg[id].ep, msg[id].sid, id>>) : id \in owed}
+  /\ l' = l + 1
+  /\ UNCHANGED <<scen, cfg, msg, order, reads, ch, hi, pkt, rcvd, skipTo, ackCum, ackGap, arw, outst, lastSack, sackEv, sn, step, newData, misc, rs, acc>>
+
 Passive == {"drop", "connclose", "txfail", "note"}
 TrPassive ==
   /\ l <= Len(Trace) /\ Trace[l].ev \in Passive
@@ -704,8 +744,8 @@ TrPassive ==
   /\ l' = l + 1
   /\ UNCHANGED <<scen, cfg, msg, order, reads, ch, hi, pkt, rcvd, skipTo, ackCum, ackGap, arw, outst, lastSack, sackEv, sn, newData, misc, rs, acc, viol>>
 
-Next == TrCfg \/ TrWCall \/ TrWrite \/ TrRead \/ TrTx \/ TrForge \/ TrChunkData \/ TrChunkSack \/ TrChunkFwd \/ TrChunkOther
-        \/ TrRx \/ TrSnap \/ TrSame \/ TrEnd \/ TrApi \/ TrCb \/ TrTick \/ TrExpect \/ TrDiff \/ TrHsFinal \/ TrHsSpecial \/ TrPassive
+Next == TrCfg \/ TrWCall \/ TrWrite \/ TrRead \/ TrTx \/ TrForge \/ TrChunkData \/ TrChunkSack \/ TrChunkFwd \/ TrChunkShutdown \/ TrChunkOther
+        \/ TrRx \/ TrSnap \/ TrSame \/ TrEnd \/ TrApi \/ TrCb \/ TrTick \/ TrExpect \/ TrDiff \/ TrHsFinal \/ TrHsSpecial \/ TrShutEnd \/ TrPassive
 
 Spec == Init /\ [][Next]_vars
 
